@@ -3,7 +3,7 @@
    32 bits, moov children in a stable order) the bytes of C01's encoder decode, with C01's decode_box, to exactly
    that tree.  This is the converse direction of C01_tree (decode then encode), for constructed trees. *)
 From V.lib Require Import Base.
-From V.c01 Require Import C01Codec C01Model.
+From V.c19 Require Import C19BoxCodec C19BoxModel.
 From V.c19 Require Import C19Model C19TreeModel C19LeafProofs.
 
 (* ------------------------------------------------------------------ facts about C01's definitions
@@ -33,9 +33,9 @@ Qed.
 Section MapStable.
   Context {A B : Type} (fa : A -> bool) (g : A -> bool * B) (Hg : forall a, fst (g a) = fa a).
   Lemma last_trak_idx_map cs : forall i acc,
-    C01Model.last_trak_idx fst (map g cs) i acc = C01Model.last_trak_idx fa cs i acc.
+    C19BoxModel.last_trak_idx fst (map g cs) i acc = C19BoxModel.last_trak_idx fa cs i acc.
   Proof.
-    induction cs as [|c t IH]; intros i acc; cbn [map C01Model.last_trak_idx]; [reflexivity|].
+    induction cs as [|c t IH]; intros i acc; cbn [map C19BoxModel.last_trak_idx]; [reflexivity|].
     now rewrite Hg, IH.
   Qed.
   Lemma moov_cond_map acc c : moov_cond fst (map g acc) (g c) = moov_cond fa acc c.
